@@ -1,4 +1,5 @@
 import Props.Defs
+import Proofs.SortLemmas
 
 namespace Coma.Proofs.Indel
 open Coma Coma.Spec
@@ -197,5 +198,45 @@ theorem mkCall_spec (lo chrom qid rs re qs qe : Int) (hlo : 0 ≤ lo) :
       simp only [true_iff]
       intro h
       exact hg ⟨h.1, h.2⟩
+
+end Coma.Proofs
+
+namespace Coma.Proofs
+open Coma Coma.Spec
+
+theorem sortCalls_perm (l : List Call) : (sortCalls l).Perm l :=
+  (isort_perm _ _).trans (isort_perm _ _)
+
+theorem sum_count_perm {l l' : List Call} (h : l.Perm l') :
+    (l.map (·.count)).sum = (l'.map (·.count)).sum :=
+  (h.map _).sum_nat
+
+/-- the Count column of the written file sums to the number of calls found (both types) -/
+theorem indelFile_count (blur : Int) (ins dels : List Call)
+    (hi : ∀ c ∈ ins, c.count = 1) (hd : ∀ c ∈ dels, c.count = 1) :
+    ((indelFile blur ins dels).map (·.count)).sum = ins.length + dels.length := by
+  unfold indelFile
+  rw [sum_count_perm (sortCalls_perm _), List.map_append, List.sum_append,
+    cluster_count blur _ (fun c hc => hd c ((sortCalls_perm dels).mem_iff.mp hc)),
+    cluster_count blur _ (fun c hc => hi c ((sortCalls_perm ins).mem_iff.mp hc)),
+    (sortCalls_perm dels).length_eq, (sortCalls_perm ins).length_eq]
+  omega
+
+/-- every query id of every call found appears in exactly one line of the file -/
+theorem indelFile_ids (blur : Int) (ins dels : List Call) :
+    ((indelFile blur ins dels).flatMap (·.qids)).Perm ((ins ++ dels).flatMap (·.qids)) := by
+  unfold indelFile
+  refine ((sortCalls_perm _).flatMap_right _).trans ?_
+  rw [List.flatMap_append, cluster_ids, cluster_ids, List.flatMap_append]
+  exact (List.perm_append_comm).trans
+    (((sortCalls_perm ins).flatMap_right _).append ((sortCalls_perm dels).flatMap_right _))
+
+/-- lines never mix types: every line comes from clustering one type -/
+theorem indelFile_types (blur : Int) (ins dels : List Call) :
+    ∀ c ∈ indelFile blur ins dels,
+      c ∈ clusterIndels blur (sortCalls dels) ∨ c ∈ clusterIndels blur (sortCalls ins) := by
+  intro c hc
+  have := (sortCalls_perm _).mem_iff.mp hc
+  simpa [List.mem_append] using this
 
 end Coma.Proofs
